@@ -1913,6 +1913,27 @@ func emitStruct() {
 		hsRegs = []string{"unrecognised"}
 	}
 	e.f("/-- `Client.handshake`: the CEA / DWA handlers registered on the state machine's mux -/\ndef handshakeAnswerHandlers : List String := %s\n", strList(hsRegs))
+	// closeNotify: what the MultistreamConn branch does (no pipe, no copy goroutine: the
+	// association's error handler closes and notifies; the reader loop's exit path notifies too)
+	var cnMulti []string
+	if fd := findFunc(srv, "conn", "closeNotify"); fd != nil {
+		ast.Inspect(fd, func(n ast.Node) bool {
+			is, ok := n.(*ast.IfStmt)
+			if !ok || is.Init == nil || !strings.Contains(exprString2(is.Init), "MultistreamConn") {
+				return true
+			}
+			ast.Inspect(is.Body, func(m ast.Node) bool {
+				if c, ok := m.(*ast.CallExpr); ok {
+					if se, ok := c.Fun.(*ast.SelectorExpr); ok {
+						cnMulti = append(cnMulti, se.Sel.Name)
+					}
+				}
+				return true
+			})
+			return false
+		})
+	}
+	e.f("/-- calls in the MultistreamConn branch of `conn.closeNotify` -/\ndef closeNotifyMultiCalls : List String := %s\n", strList(cnMulti))
 	// server.go: which functions perform a TLS handshake (it belongs to the connection's own
 	// goroutine; in the accept loop a peer that never finishes it would stall the listener)
 	var hsSites []string
